@@ -219,24 +219,46 @@ def formula(chk, F):
     fn = F.find(CORE, "parsing::formula::substance_from_formula")
     fk = "rink_core::parsing::formula::substance_from_formula"
     h = F.hir_of(fn)
-    ms = [m for m in hir_walk(h["body"]) if m.get("k") == "Match" and m.get("src") == "Normal" and any("Token::Symbol" in H.pat_str(a["pat"]) for a in m["arms"])]
-    if len(ms) != 1:
-        raise AnchorLost("substance_from_formula has no match over tokens")
-    m = ms[0]
-    arms = m["arms"]
-    sym = [a for a in arms if "Token::Symbol" in H.pat_str(a["pat"])]
-    rest = [a for a in arms if a not in sym]
-    ok = len(sym) == 1 and sym[0].get("guard") is not None and "contains_key" in H.expr_str(sym[0]["guard"]) and \
-        len(rest) == 1 and H.pat_str(rest[0]["pat"]) == "_" and H.expr_str(rest[0]["body"]).startswith("return Option::None")
-    chk.decide(ok, "formula-shape", fk, "unknown-token-is-not-a-formula", "%s:%d" % (fn.file, m["line"]),
-               "any token other than a known element symbol ends with None", "the token match of substance_from_formula accepts something other than known symbols: %s" % [H.pat_str(a["pat"]) for a in arms])
-    # the symbol whose molar mass is added is the one matched
-    body = sym[0]["body"] if sym else {}
-    gets = [c for c in H.method_calls(body, "get")]
-    txt = hirpp_text(body)
-    same_sym = "substances.get(symbols.get(sym).unwrap())" in txt
-    chk.decide(same_sym, "formula-shape", fk, "mass-of-the-matched-symbol", "%s:%d" % (fn.file, sym[0]["line"] if sym else 0),
-               "the substance looked up is the one registered for the matched symbol", "the molar mass added is not that of the matched symbol")
+    # decided on the MIR, so that a match guard `if symbols.contains_key(sym)`, a `symbols.get(&sym)?` and a `let .. else` read
+    # the same: the molar mass is asked of  substances[ symbols[ <this token> as Symbol .0 ] ], and that lookup is reached only
+    # for a Symbol token that the symbol table knows
+    gets = [(bb, t) for bb, t in fn.calls() if "callee" in t and t["callee"]["path"].endswith("substance::Substance::get")]
+    if len(gets) != 1:
+        raise AnchorLost("substance_from_formula: expected one Substance::get (the molar mass of an element), found %d" % len(gets))
+    gb, gt = gets[0]
+    recv = fn.apath(gt["args"][0])
+    def peel(ap):
+        while ap[0][0] == "call" and ap[0][2] and not ap[1] and ap[0][1].endswith(("Option::<T>::unwrap", "Try>::branch", "Option::<T>::expect")):
+            ap = ap[0][2][0]
+        if ap[1][-2:] == ("as Continue", "0") or ap[1][-2:] == ("as Some", "0"):
+            ap = (ap[0], ap[1][:-2])
+            return peel(ap)
+        return ap
+    outer = peel(recv)
+    same_sym = False
+    known = False
+    tok_txt = None
+    if outer[0][0] == "call" and outer[0][1].endswith("BTreeMap::<K, V, A>::get") and ap_str(outer[0][2][0]) == "arg3":
+        inner = peel(outer[0][2][1])
+        if inner[0][0] == "call" and inner[0][1].endswith("BTreeMap::<K, V, A>::get") and ap_str(inner[0][2][0]) == "arg2":
+            key = inner[0][2][1]
+            same_sym = key[1][-2:] == ("as Symbol", "0")
+            tok_txt = ap_str((key[0], key[1][:-2]))
+            sym_txt = ap_str(key)
+            for g in fn.guards_of(gb):
+                d = fn.guard_desc(g)
+                txt = ap_str(d[1])
+                if d[0] == "bool" and d[2] is True and "contains_key(arg2, " in txt and facts.ap_contains(d[1], key):
+                    known = True
+                if d[0] == "variant" and d[3] in ("Some", "Continue") and "::get(arg2, " in txt and facts.ap_contains(d[1], key):
+                    known = True
+    tok = (key[0], key[1][:-2]) if tok_txt is not None else None
+    sym_edge = any(fn.guard_desc(g)[0] == "variant" and fn.guard_desc(g)[3] == "Symbol" and (tok is None or facts.ap_match(fn.guard_desc(g)[1], tok)) for g in fn.guards_of(gb))
+    chk.decide(sym_edge and known, "formula-shape", fk, "unknown-token-is-not-a-formula", fn.where(gb),
+               "a molar mass is looked up only for a Symbol token that the symbol table knows; anything else ends with None",
+               "substance_from_formula accepts something other than known symbols (Symbol edge: %s, symbol known: %s)" % (sym_edge, known))
+    chk.decide(same_sym, "formula-shape", fk, "mass-of-the-matched-symbol", fn.where(gb),
+               "the substance looked up is the one registered for the matched symbol", "the molar mass added is not that of the matched symbol (%s)" % ap_str(recv)[:160])
     # MIR: total = total + (molar_mass * count)
     ts = numtree.maximal_trees(fn)[1]
     vals = set(ts.values())
